@@ -112,7 +112,7 @@ impl Scenario for S7 {
         };
         let keys: Vec<u64> = (0..nk).map(|_| key(&mut g)).collect();
         let hot = g.range(1, nk as u64) as usize;
-        let mut op = |g: &mut Sm| -> (u64, u64) {
+        let op = |g: &mut Sm| -> (u64, u64) {
             let a = if g.chance(3, 4) { keys[g.usize(hot)] } else { key(g) };
             (a, g.below(64))
         };
